@@ -1,252 +1,188 @@
 /-
-C13 — property theorems for the patch machine (`J2O.Model.C13`).
+C13 — property theorems for the patch machine (`J2O.Model.C13`, the code after fix 21b5229).
 
 What "as found" means here: the own-attribute table of every target (hence what `getattr` and
 `inspect.getattr_static` resolve for every (target, attribute)), and the refcount table
 `_PATCH_STATE`, are *equal* after the program to what they were before — whether the program
 returns or raises.
 
-* `run_restores_partial`        for every program (arbitrary nesting of apply_patches /
-      apply_monkey_patches contexts, sequencing, swallowed exceptions), every hierarchy, every
-      registry, every start state and every exception point inside a `try` (spec resolution,
-      make_value, setattr, the body, nested bodies): if the two monitors are true, the own table
-      and `_PATCH_STATE` are restored exactly.
-      *Partial* in two ways, both shown necessary below:
-        `good`    every patched key had an own plain value or was missing on the whole MRO
-        `entryOk` no exception inside the entry loop of apply_monkey_patches
-* `applyPatches_restores_partial`, `monkey_restores_partial`, `patchState_empty_after_partial`,
-  `lookup_restored_partial`   the named instances / corollaries
-* `applyPatches_restores_refuted`  the statement without `good` is FALSE: a base class patched
-      before a subclass that has no own attribute leaves the *patched* value in the subclass
-      (replayed on the real code: flax.linen.MultiHeadAttention.__call__ after any to_onnx)
-* `monkey_restores_refuted`     the statement without `entryOk` is FALSE: an exception in the
-      entry loop leaves the earlier sites patched and `_PATCH_STATE` non-empty (replayed on the
-      real code: @onnx_function on a function that is not a module attribute)
-* `inherited_ownCopy_partial`   the benign case outside `good` (flax.linen Conv/ConvLocal): an
-      inherited attribute whose provider is not patched ends as an own copy, `getattr` unchanged
-* `x64_restored`                `to_onnx` leaves the global x64 flag as found (model of
-      `_temporary_x64` / `_force_jax_x64` shared with C18)
+* `run_restores`              FULL STRENGTH: for every program (arbitrary nesting of apply_patches /
+      apply_monkey_patches contexts, sequencing, swallowed exceptions), every hierarchy (any MROs,
+      diamonds included), every registry, every start state with a well-formed `_PATCH_STATE`, and
+      every exception point (spec resolution, getattr, make_value / patch_fn, setattr — in
+      apply_patches AND in the entry loop of apply_monkey_patches —, the body, nested bodies):
+      the own table and `_PATCH_STATE` are restored exactly.  No hypothesis on the patched keys:
+      own, inherited, metaclass-provided/missing, descriptor or not.
+      Remaining hypothesis `PSwf`: reference counts in the initial `_PATCH_STATE` are ≥ 1; this is an
+      invariant of the code itself (entries are removed at 0), true of the empty table
+      (`run_restores_from_clean`), and needed only because the statement quantifies over arbitrary
+      start states.
+* `applyPatches_restores`, `monkey_restores`, `patchState_empty_after`, `lookup_restored`
+      the named instances / corollaries (all full strength)
+* `x64_restored`              `to_onnx` leaves the global x64 flag as found (model shared with C18)
+* regression, about the machine BEFORE the fix (`J2O.Model.C13Old`): `old_capture_leaks`,
+  `old_entry_fault_leaks` (the two former refutation witnesses) next to `capture_restored`,
+  `entry_fault_restored` (the same programs on the repaired machine)
 -/
 import J2O.Lemmas.C13
 import J2O.Lemmas.C18
+import J2O.Model.C13Old
 set_option linter.unusedSimpArgs false
 set_option linter.unusedVariables false
 
 namespace J2O.C13
 
-/-- **Restoration (partial).** -/
-theorem run_restores_partial (H : Hier) (hH : H.SelfFirst) (reg : List Site) :
-    ∀ (p : Prog) (st : St), (run H reg p st).good = true → (run H reg p st).entryOk = true →
+/-- **Restoration.** -/
+theorem run_restores (H : Hier) (reg : List Site) :
+    ∀ (p : Prog) (st : St), PSwf st.ps →
       (run H reg p st).st.own = st.own ∧ (run H reg p st).st.ps = st.ps := by
   intro p
   induction p with
-  | skip => intro st _ _; exact ⟨rfl, rfl⟩
-  | raise => intro st _ _; exact ⟨rfl, rfl⟩
+  | skip => intro st _; exact ⟨rfl, rfl⟩
+  | raise => intro st _; exact ⟨rfl, rfl⟩
   | seq a b iha ihb =>
-    intro st hg he
-    simp only [run] at hg he ⊢
+    intro st hwf
+    simp only [run]
+    have h1 := iha st hwf
     cases hr : (run H reg a st).raised with
-    | true =>
-      simp only [hr, ↓reduceIte] at hg he ⊢
-      exact iha st hg he
+    | true => simp only [↓reduceIte]; exact h1
     | false =>
-      simp only [hr, Bool.false_eq_true, ↓reduceIte, Bool.and_eq_true] at hg he ⊢
-      have h1 := iha st hg.1 he.1
-      have h2 := ihb _ hg.2 he.2
+      simp only [Bool.false_eq_true, ↓reduceIte]
+      have h2 := ihb (run H reg a st).st (by rw [h1.2]; exact hwf)
       exact ⟨h2.1.trans h1.1, h2.2.trans h1.2⟩
   | patches specs body ih =>
-    intro st hg he
-    simp only [run] at hg he ⊢
-    cases hr : (enter H st.own specs [] true).raised with
-    | true =>
-      simp only [hr, ↓reduceIte] at hg ⊢
-      have := enter_unwind H hH specs st.own [] true hg
-      simp only [unwind] at this
-      exact ⟨this, trivial⟩
+    intro st hwf
+    simp only [run]
+    have hu := enter_unwind H specs st.own []
+    simp only [unwind] at hu
+    cases hr : (enter H st.own specs []).raised with
+    | true => simp only [↓reduceIte]; exact ⟨hu, trivial⟩
     | false =>
-      simp only [hr, Bool.false_eq_true, ↓reduceIte, Bool.and_eq_true] at hg he ⊢
-      have h1 := ih _ hg.2 he
+      simp only [Bool.false_eq_true, ↓reduceIte]
+      have h1 := ih ⟨(enter H st.own specs []).own, st.ps⟩ hwf
       simp only at h1
-      refine ⟨?_, h1.2⟩
-      rw [h1.1]
-      have := enter_unwind H hH specs st.own [] true hg.1
-      simpa [unwind] using this
+      exact ⟨by rw [h1.1]; exact hu, h1.2⟩
   | monkey faults body ih =>
-    intro st hg he
-    simp only [run] at hg he ⊢
-    cases hr : (menter H st reg faults [] true).raised with
-    | true =>
-      simp only [hr, ↓reduceIte] at he
-      exact absurd he (by simp)
+    intro st hwf
+    simp only [run]
+    have hm := menter_mexit H reg st faults [] hwf
+    simp only [mexit] at hm
+    cases hr : (menter H st reg faults []).raised with
+    | true => simp only [↓reduceIte]; rw [hm]; exact ⟨rfl, rfl⟩
     | false =>
-      simp only [hr, Bool.false_eq_true, ↓reduceIte, Bool.and_eq_true] at hg he ⊢
-      have h1 := ih _ hg.2 he
-      have hst : (run H reg body (menter H st reg faults [] true).st).st
-          = (menter H st reg faults [] true).st := st_eq _ _ h1.1 h1.2
-      rw [hst]
-      have := menter_mexit H hH reg st faults [] true hg.1 hr
-      simp only [mexit] at this
-      rw [this]
+      simp only [Bool.false_eq_true, ↓reduceIte]
+      have h1 := ih (menter H st reg faults []).st (menter_wf H reg st faults [] hwf)
+      have hst : (run H reg body (menter H st reg faults []).st).st = (menter H st reg faults []).st :=
+        st_eq _ _ h1.1 h1.2
+      rw [hst, hm]
       exact ⟨rfl, rfl⟩
   | «catch» body ih =>
-    intro st hg he
-    simp only [run] at hg he ⊢
-    exact ih st hg he
+    intro st hwf
+    simp only [run]
+    exact ih st hwf
 
-/-- `apply_patches(specs)` around any body (nested contexts, exceptions): own table restored. -/
-theorem applyPatches_restores_partial (H : Hier) (hH : H.SelfFirst) (reg : List Site)
-    (specs : List Spec) (body : Prog) (st : St)
-    (hg : (run H reg (.patches specs body) st).good = true)
-    (he : (run H reg (.patches specs body) st).entryOk = true) :
-    (run H reg (.patches specs body) st).st.own = st.own :=
-  (run_restores_partial H hH reg _ st hg he).1
+theorem PSwf_empty : PSwf (fun _ _ => none) := by
+  intro t a o w c h; simp at h
 
-/-- `apply_monkey_patches()` around any body, any nesting depth (`body` may contain further
-    `monkey` contexts), any exception point after the entry loop. -/
-theorem monkey_restores_partial (H : Hier) (hH : H.SelfFirst) (reg : List Site)
-    (faults : List Fault) (body : Prog) (st : St)
-    (hg : (run H reg (.monkey faults body) st).good = true)
-    (he : (run H reg (.monkey faults body) st).entryOk = true) :
+/-- from a process in which no conversion is running (`_PATCH_STATE` empty): no hypothesis at all -/
+theorem run_restores_from_clean (H : Hier) (reg : List Site) (p : Prog) (own : Own) :
+    (run H reg p ⟨own, fun _ _ => none⟩).st.own = own ∧
+    (run H reg p ⟨own, fun _ _ => none⟩).st.ps = fun _ _ => none :=
+  run_restores H reg p ⟨own, fun _ _ => none⟩ PSwf_empty
+
+/-- `apply_patches(specs)` around any body (nested contexts, exceptions at any step): own table
+    restored, for every spec list — duplicates on one key, inherited keys, missing keys. -/
+theorem applyPatches_restores (H : Hier) (reg : List Site) (specs : List Spec) (body : Prog) (st : St)
+    (hwf : PSwf st.ps) : (run H reg (.patches specs body) st).st.own = st.own :=
+  (run_restores H reg _ st hwf).1
+
+/-- `apply_monkey_patches()` around any body, any nesting depth, any exception point — the entry
+    loop included. -/
+theorem monkey_restores (H : Hier) (reg : List Site) (faults : List Fault) (body : Prog) (st : St)
+    (hwf : PSwf st.ps) :
     (run H reg (.monkey faults body) st).st.own = st.own ∧
       (run H reg (.monkey faults body) st).st.ps = st.ps :=
-  run_restores_partial H hH reg _ st hg he
+  run_restores H reg _ st hwf
 
 /-- `_PATCH_STATE` is empty after every program that found it empty. -/
-theorem patchState_empty_after_partial (H : Hier) (hH : H.SelfFirst) (reg : List Site) (p : Prog)
-    (st : St) (h0 : st.ps = fun _ _ => none)
-    (hg : (run H reg p st).good = true) (he : (run H reg p st).entryOk = true) :
-    (run H reg p st).st.ps = fun _ _ => none := by
-  rw [(run_restores_partial H hH reg p st hg he).2, h0]
+theorem patchState_empty_after (H : Hier) (reg : List Site) (p : Prog) (own : Own) :
+    (run H reg p ⟨own, fun _ _ => none⟩).st.ps = fun _ _ => none :=
+  (run_restores_from_clean H reg p own).2
 
 /-- `getattr` resolves every (target, attribute) as before. -/
-theorem lookup_restored_partial (H : Hier) (hH : H.SelfFirst) (reg : List Site) (p : Prog) (st : St)
-    (hg : (run H reg p st).good = true) (he : (run H reg p st).entryOk = true) (t : Tgt) (a : Attr) :
-    lookup H (run H reg p st).st.own t a = lookup H st.own t a := by
-  rw [(run_restores_partial H hH reg p st hg he).1]
+theorem lookup_restored (H : Hier) (reg : List Site) (p : Prog) (st : St) (hwf : PSwf st.ps)
+    (t : Tgt) (a : Attr) : lookup H (run H reg p st).st.own t a = lookup H st.own t a := by
+  rw [(run_restores H reg p st hwf).1]
 
-/-! ### the two hypotheses are necessary: the full-strength statements are false -/
+/-! ### the former counterexamples, on the repaired machine -/
 
 /-- two classes: 0 = base (defines attribute 0), 1 = subclass of 0 without own attribute -/
 def H2 : Hier := ⟨fun t => if t = 1 then [1, 0] else [t], fun _ => true⟩
 def own2 : Own := fun t a => if t = 0 ∧ a = 0 then some (.tok 7) else none
 def st2 : St := ⟨own2, fun _ _ => none⟩
 
-theorem H2_selfFirst : H2.SelfFirst := by
-  intro t
-  by_cases h : t = 1
-  · exact ⟨[0], by simp [H2, h]⟩
-  · exact ⟨[], by simp [H2, h]⟩
-
 /-- base patched first, then the subclass — the shape of the MultiHeadDotProductAttention /
     MultiHeadAttention plugins entered one after the other by `_activate_plugin_worlds` -/
 def capture : Prog :=
   .patches [⟨0, 0, .monkey 1, .none⟩] (.patches [⟨1, 0, .monkey 2, .none⟩] .skip)
 
-theorem capture_leaks :
-    (run H2 [] capture st2).entryOk = true ∧ (run H2 [] capture st2).raised = false ∧
-    (run H2 [] capture st2).st.own 0 0 = some (.tok 7) ∧               -- the base is restored
-    st2.own 1 0 = none ∧                                              -- the subclass had no own attribute
-    (run H2 [] capture st2).st.own 1 0 = some (.wrap 1 (.tok 7)) ∧     -- … and now owns the base's *patched* value
-    lookup H2 (run H2 [] capture st2).st.own 1 0 ≠ lookup H2 st2.own 1 0 := by
-  decide
-
-/-- **Full-strength `applyPatches_restores` (no `good` hypothesis) is refuted.** -/
-theorem applyPatches_restores_refuted :
-    ¬ (∀ (H : Hier) (reg : List Site) (specs : List Spec) (body : Prog) (st : St) (t : Tgt) (a : Attr),
-        H.SelfFirst → (run H reg (.patches specs body) st).entryOk = true →
-        lookup H (run H reg (.patches specs body) st).st.own t a = lookup H st.own t a) := by
-  intro h
-  exact capture_leaks.2.2.2.2.2 (h H2 [] _ _ st2 1 0 H2_selfFirst capture_leaks.1)
+theorem capture_restored :
+    (run H2 [] capture st2).st.own 0 0 = some (.tok 7) ∧ (run H2 [] capture st2).st.own 1 0 = none ∧
+    lookup H2 (run H2 [] capture st2).st.own 1 0 = lookup H2 st2.own 1 0 := by decide
 
 /-- registry of two sites; the second target lacks the attribute (→ AttributeError in the
     entry loop), like `@onnx_function` on a function that is not a module attribute -/
 def reg3 : List Site := [⟨0, 0, 1⟩, ⟨2, 0, 2⟩]
 
-theorem entry_fault_leaks :
-    (run H2 reg3 (.monkey [] .skip) st2).good = true ∧
+theorem entry_fault_restored :
     (run H2 reg3 (.monkey [] .skip) st2).raised = true ∧
-    (run H2 reg3 (.monkey [] .skip) st2).st.own 0 0 = some (.wrap 1 (.tok 7)) ∧   -- still patched
-    (run H2 reg3 (.monkey [] .skip) st2).st.ps 0 0 = some (.tok 7, 1) ∧           -- entry kept forever
-    -- a later conversion whose entry loop succeeds does not repair it: the count never reaches 0
-    (run H2 [⟨0, 0, 1⟩] (.monkey [] .skip) (run H2 reg3 (.monkey [] .skip) st2).st).st.own 0 0
-      = some (.wrap 1 (.tok 7)) := by
-  decide
+    (run H2 reg3 (.monkey [] .skip) st2).st.own 0 0 = some (.tok 7) ∧
+    (run H2 reg3 (.monkey [] .skip) st2).st.ps 0 0 = none := by decide
 
-/-- **Full-strength `monkey_restores` (exception anywhere, entry loop included) is refuted.** -/
-theorem monkey_restores_refuted :
-    ¬ (∀ (H : Hier) (reg : List Site) (faults : List Fault) (body : Prog) (st : St),
-        H.SelfFirst → (run H reg (.monkey faults body) st).good = true →
-        (run H reg (.monkey faults body) st).st.own = st.own ∧
-          (run H reg (.monkey faults body) st).st.ps = st.ps) := by
-  intro h
-  have := (h H2 reg3 [] .skip st2 H2_selfFirst entry_fault_leaks.1).1
-  have h0 := congrFun (congrFun this 0) 0
-  rw [entry_fault_leaks.2.2.1] at h0
-  exact absurd h0 (by decide)
+/-! ### regression: the machine before fix 21b5229 (`J2O.C13Old`) leaked on exactly these programs -/
 
-/-! ### non-vacuity: both monitors are true on non-trivial runs with exceptions at every kind
-    of injection point -/
+def oldH2 : C13Old.Hier := ⟨fun t => if t = 1 then [1, 0] else [t], fun _ => true⟩
+def oldSt2 : C13Old.St := ⟨fun t a => if t = 0 ∧ a = 0 then some (.tok 7) else none, fun _ _ => none⟩
+def oldCapture : C13Old.Prog :=
+  .patches [⟨0, 0, .monkey 1, .none⟩] (.patches [⟨1, 0, .monkey 2, .none⟩] .skip)
+
+/-- OLD machine: the subclass ends up owning the base's *patched* value (was replayed on the real
+    code as flax.linen.MultiHeadAttention.__call__ after any to_onnx) -/
+theorem old_capture_leaks :
+    (C13Old.run oldH2 [] oldCapture oldSt2).st.own 1 0 = some (.wrap 1 (.tok 7)) ∧
+    C13Old.lookup oldH2 (C13Old.run oldH2 [] oldCapture oldSt2).st.own 1 0
+      ≠ C13Old.lookup oldH2 oldSt2.own 1 0 := by decide
+
+/-- OLD machine: an exception in the entry loop left the first site patched and its
+    `_PATCH_STATE` entry behind (was replayed as @onnx_function on a nested function) -/
+theorem old_entry_fault_leaks :
+    (C13Old.run oldH2 [⟨0, 0, 1⟩, ⟨2, 0, 2⟩] (.monkey [] .skip) oldSt2).st.own 0 0
+      = some (.wrap 1 (.tok 7)) ∧
+    (C13Old.run oldH2 [⟨0, 0, 1⟩, ⟨2, 0, 2⟩] (.monkey [] .skip) oldSt2).st.ps 0 0
+      = some (.tok 7, 1) := by decide
+
+/-! ### non-vacuity: a busy run with exceptions at every kind of injection point -/
 
 def own4 : Own := fun t a =>
-  if t = 0 ∧ a = 0 then some (.tok 7) else if t = 1 ∧ a = 0 then some (.tok 8) else
+  if t = 0 ∧ a = 0 then some (.tok 7) else if t = 1 ∧ a = 0 then some (.static 8) else
   if t = 2 ∧ a = 1 then some (.tok 9) else none
 def st4 : St := ⟨own4, fun _ _ => none⟩
-def reg4 : List Site := [⟨0, 0, 1⟩, ⟨1, 0, 2⟩, ⟨0, 0, 3⟩]
-/-- outer world (monkey + two binding contexts incl. a missing attribute and a duplicate key), a
-    nested re-activation whose second binding fails in make_value and is swallowed, then the
-    trace raises -/
+def reg4 : List Site := [⟨0, 0, 1⟩, ⟨1, 0, 2⟩, ⟨0, 0, 3⟩, ⟨3, 3, 4⟩]
+/-- outer world (monkey whose 4th site has no such attribute → raises in the entry loop, swallowed),
+    then monkey with a failing patch_fn, binding contexts incl. a missing attribute, a
+    staticmethod, a duplicate key, a nested re-activation failing in make_value, then the trace raises -/
 def busy : Prog :=
-  .monkey [] (.patches [⟨2, 1, .monkey 4, .none⟩, ⟨2, 5, .assign (.tok 11), .none⟩, ⟨2, 1, .monkey 5, .none⟩]
-    (.seq (.catch (.monkey [] (.patches [⟨2, 1, .monkey 6, .none⟩, ⟨2, 5, .monkey 7, .make⟩] .skip)))
-      (.seq (.patches [⟨1, 0, .assign (.tok 12), .set⟩] .skip) .raise)))
+  .seq (.catch (.monkey [] .skip))
+    (.seq (.catch (.monkey [.none, .make] .skip))
+      (.patches [⟨2, 1, .monkey 4, .none⟩, ⟨2, 5, .assign (.tok 11), .none⟩, ⟨1, 0, .monkey 5, .none⟩,
+                 ⟨2, 1, .monkey 5, .none⟩]
+        (.seq (.catch (.patches [⟨2, 1, .monkey 6, .none⟩, ⟨2, 5, .monkey 7, .make⟩] .skip))
+          (.seq (.patches [⟨1, 0, .assign (.tok 12), .set⟩] .skip) .raise))))
 
-example : (run H2 reg4 busy st4).good = true ∧ (run H2 reg4 busy st4).entryOk = true ∧
-    (run H2 reg4 busy st4).raised = true ∧
+example : (run H2 reg4 busy st4).raised = true ∧
     (run H2 reg4 busy st4).st.own 2 1 = some (.tok 9) ∧ (run H2 reg4 busy st4).st.own 2 5 = none ∧
+    (run H2 reg4 busy st4).st.own 1 0 = some (.static 8) ∧ (run H2 reg4 busy st4).st.own 0 0 = some (.tok 7) ∧
     (run H2 reg4 busy st4).st.ps 0 0 = none := by decide
-
-/-! ### the benign case outside `good`: an inherited attribute whose provider is not patched -/
-
-/-- **Own copy, same resolution (partial).** `apply_patches` on a key that the target only
-    inherits (flax.linen `Conv.__call__`, `ConvLocal.__call__` from `_Conv`), around any body that
-    restores the own table (in particular: the provider is not left patched), leaves exactly one
-    difference — the target now OWNS a copy of the inherited value — and, in a hierarchy without
-    diamonds, `getattr` resolves every (target, attribute) as before.  This is weaker than
-    own-table identity (`vars(cls)` differs) and the statement says so. -/
-theorem inherited_ownCopy_partial (H : Hier) (hH : H.SelfFirst) (hL : H.Linear) (reg : List Site)
-    (s : Spec) (body : Prog) (st : St) (v : Val)
-    (hnone : st.own s.tgt s.attr = none) (hv : firstOwn st.own s.attr (H.mro s.tgt) = some v)
-    (hplain : descGet H s.tgt v = v) (hf : s.faults = false)
-    (hbody : ∀ st', (run H reg body st').st.own = st'.own) :
-    (run H reg (.patches [s] body) st).st.own = setOwn st.own s.tgt s.attr (some v) ∧
-    ∀ t a, lookup H (run H reg (.patches [s] body) st).st.own t a = lookup H st.own t a := by
-  have hlk : lookup H st.own s.tgt s.attr = some v := by
-    unfold lookup; rw [hv]; simp [hplain]
-  have hown : (run H reg (.patches [s] body) st).st.own = setOwn st.own s.tgt s.attr (some v) := by
-    simp only [run, enter, hf, Bool.false_eq_true, if_false, hbody, unwind, hlk, setOwn_setOwn]
-  refine ⟨hown, ?_⟩
-  intro t a
-  rw [hown]
-  exact ownCopy_invisible H hH hL st.own s.tgt s.attr v hnone hv t a
-
-theorem H2_linear : H2.Linear := by
-  intro s t h
-  by_cases hs : s = 1
-  · subst hs
-    simp [H2] at h
-    rcases h with rfl | rfl
-    · exact ⟨[], by simp [H2], by simp⟩
-    · exact ⟨[1], by simp [H2], by simp⟩
-  · simp [H2, hs] at h
-    subst h
-    exact ⟨[], by simp [H2, hs], by simp⟩
-
--- non-vacuity: the subclass alone is patched (its base is not): it ends with an own copy of the
--- inherited value and resolves as before
-example : (run H2 [] (.patches [⟨1, 0, .monkey 2, .none⟩] .raise) st2).st.own 1 0 = some (.tok 7) ∧
-    lookup H2 (run H2 [] (.patches [⟨1, 0, .monkey 2, .none⟩] .raise) st2).st.own 1 0
-      = lookup H2 st2.own 1 0 ∧
-    (run H2 [] (.patches [⟨1, 0, .monkey 2, .none⟩] .raise) st2).good = false := by decide
 
 /-! ### the x64 flag -/
 
